@@ -6,7 +6,7 @@ from sa.gf import show
 from sa.loader import AnalysisError
 from checks._gf_common import run_all, report, TRUSTED as _T
 
-LEVEL = "proof"
+LEVEL = "other"
 TRUSTED = _T
 EXPLANATION = (
     "Modular deductive verification by guard-fact dataflow (sa/gf.py): for every return statement of the three strategies, "
@@ -26,6 +26,12 @@ def run(project, chk):
                         "the formatted result denotes the RGB that was judged: rgbint_to_string / Color(.).rgb / format_color are colour-preserving (structural part under C06; numeric read-back equality not decided)",
                         "A1: no NaN contrast; oklch_to_rgb_safe returns a valid 8-bit triple (C10)"]
     chk.not_decided += ["that the hsl()/rgb() text a CSS consumer reads back is numerically the judged colour (C06's numeric clause)"]
+    chk.rule("V3", "the contrast the verdicts are taken on is the WCAG 2 ratio: calculate_contrast_ratio / luminance / linearisation are the published formulas (the audit of C05, here as a discharged assumption)")
+    chk.rule("V4", "the returned text denotes the judged RGB: hex pairs / rgb() ints in order after validation, hsl() fields at full precision inside the reader's range (the emitted-field rules of C06)")
+    from checks.C05 import ratio_is_wcag
+    from checks.C06 import emitted_fields
+    ratio_is_wcag(project, chk, "V3", "V3", "V3")
+    emitted_fields(project, chk, "V4", "V4")
     contracts, out = run_all(project)
     n = report(project, chk, "C01", lambda r: "V1", out)
     chk.floor("verdict obligations (flag <=> contrast >= minimum)", n, 100)
